@@ -142,7 +142,8 @@ def simplify_single(record):
 def base_record(prop, seed, run, tier):
     return {'property': prop, 'seed': seed, 'run': run, 'tier': tier, 'debug': True, 'clients': [], 'ops': [],
             'alias_objects': stream(seed, prop, run, 'alias').random() < 0.15,
-            'grid_from_shape': stream(seed, prop, run, 'from_shape').random() < 0.12}
+            'grid_from_shape': stream(seed, prop, run, 'from_shape').random() < 0.12,
+            'door_status_assigned': stream(seed, prop, run, 'door_assign').random() < 0.12}
 
 
 def seam_break(ev):
